@@ -32,6 +32,7 @@ inductive Op where
   | rlim
   | fill (fd : Nat)
   | sel (fd : Nat) (forWriting : Bool)
+  | tmp
 
 /-- what an operation answers -/
 inductive Obs where
@@ -48,6 +49,7 @@ inductive Obs where
   | path (p : Path)
   | access (rd wr : Bool)
   | full
+  | anon (size : Nat)
   deriving DecidableEq, Repr
 
 /-- a path that lexically leaves the scratch root (or is absolute) is refused by the harness guard -/
@@ -99,7 +101,11 @@ def step (k : K) : Op → K × Obs
   | .umask m => ((setUmask k m).2, .num (setUmask k m).1)
   | .fstat fd =>
     match fstat k fd with
-    | .ok n => (k, if (getOfd k fd).any (·.2.pipe) then .fifo else .node n)
+    | .ok n =>
+      (k, if (getOfd k fd).any (·.2.pipe) then .fifo
+          else if (getOfd k fd).any (fun io => io.2.path.head? = some "..std" ∧ (io.2.path.getLast?.getD "").startsWith "tmp")
+          then (match n with | .reg _ c => .anon c.length | _ => .node n)
+          else .node n)
     | .error e => (k, .err e)
   | .stat p =>
     if guarded k p then (k, .err .ESCAPE) else
@@ -128,6 +134,10 @@ def step (k : K) : Op → K × Obs
   | .fill fd =>
     match fillPipe k fd with
     | .ok _ k' => (k', .full)
+    | .err e => (k, .err e)
+  | .tmp =>
+    match tmpfile k with
+    | .ok fd k' => (k', .num fd)
     | .err e => (k, .err e)
   | .sel fd w =>
     match (if w then writeReady k fd else readReady k fd) with
